@@ -607,3 +607,59 @@ func uniqueStrings(xs []string) []string {
 	sort.Strings(out)
 	return out
 }
+
+// typeSpecToAST builds the ast.Type the YAML rendering of t decodes to
+// (written by hand: it does not go through the loader).
+func typeSpecToAST(t *TypeSpec) (ast.Type, error) {
+	if t == nil {
+		return ast.Type{}, fmt.Errorf("nil type spec")
+	}
+	out := ast.Type{Nullable: t.Nullable, Default: t.Default}
+	if t.Hints {
+		out.Hints = ast.JenniesHints{}
+	}
+	strScalar := ast.Type{Kind: ast.KindScalar, Scalar: &ast.ScalarType{ScalarKind: ast.KindString}}
+	switch t.K {
+	case "array":
+		e, err := typeSpecToAST(t.Elem)
+		if err != nil {
+			return out, err
+		}
+		out.Kind, out.Array = ast.KindArray, &ast.ArrayType{ValueType: e}
+	case "map":
+		e, err := typeSpecToAST(t.Elem)
+		if err != nil {
+			return out, err
+		}
+		out.Kind, out.Map = ast.KindMap, &ast.MapType{IndexType: strScalar, ValueType: e}
+	case "ref":
+		out.Kind, out.Ref = ast.KindRef, &ast.RefType{ReferredPkg: t.RefPkg, ReferredType: t.RefName}
+	case "struct":
+		st := &ast.StructType{}
+		for _, f := range t.Fields {
+			af, err := fieldSpecToAST(f)
+			if err != nil {
+				return out, err
+			}
+			st.Fields = append(st.Fields, af)
+		}
+		out.Kind, out.Struct = ast.KindStruct, st
+	case "enum":
+		en := &ast.EnumType{}
+		for _, v := range t.Values {
+			en.Values = append(en.Values, ast.EnumValue{Type: strScalar, Name: v, Value: v})
+		}
+		out.Kind, out.Enum = ast.KindEnum, en
+	default:
+		out.Kind, out.Scalar = ast.KindScalar, &ast.ScalarType{ScalarKind: ast.ScalarKind(t.K)}
+	}
+	return out, nil
+}
+
+func fieldSpecToAST(f FieldSpec) (ast.StructField, error) {
+	t, err := typeSpecToAST(f.T)
+	if err != nil {
+		return ast.StructField{}, err
+	}
+	return ast.StructField{Name: f.Name, Type: t, Required: f.Required, Comments: f.Comments}, nil
+}
